@@ -174,7 +174,33 @@ def c18(pid, tier, replay):
         plan["extra_coverage"] = {"tlc_exported_histories": ns}
 
     plan["prepare"] = prepare
-    return simple.run_simple(pid, tier, plan, replay)
+    rc = simple.run_simple(pid, tier, plan, replay)
+    if replay:
+        return rc
+
+    # second stage: the dispatch pipeline (Pipeline.tla): which format and which driver a call ends up with
+    def prepare2(scratch, plan2, vh):
+        dest = scratch.path("pipeline-scripts.ndjson")
+        ns, gen = graph.export_scripts(scratch, 240 if tier == Q else 4000, 20, dest, cfg="Pipeline_sim.cfg", module="Pipeline")
+        plan2["jobs"] = [{"cmd": ["pipe-run", "--scripts", dest], "label": "tlc-export"}]
+        plan2["extra_coverage"] = {"tlc_exported_histories": ns}
+
+    plan2 = {
+        "module": "TracePipeline", "cfg": "TracePipeline.cfg", "own": r"^pipe\.(parse|write)\.precedence$", "jobs": [],
+        "design": [("Pipeline", "Pipeline.cfg", 900)], "prepare": prepare2,
+        "merge_into_existing": "dispatch_pipeline", "replay_cmd": lambda path: None,
+        "result_keys": ("res",), "nontrivial": lambda e: e.get("op") in ("Parse", "Write"),
+        "rule": "behaviours of Pipeline.tla (register / unregister drivers on both registries, new writer with a format, parse "
+                "and write calls with no options value / no format / a stated format, over declared / undeclared, valid / "
+                "invalid inputs) exported by TLC simulation and replayed on the real reader and writer with self-naming and "
+                "failing drivers; the observed [kind, stage, driver] must be a result the specification allows.  C18 owns the "
+                "precedence clauses (a format stated in the call decides); the other clauses (registry effect, stage of an "
+                "error, panic on a nil options value) are behaviour outside the listed properties and are reported as "
+                "observations",
+        "assumptions": ["the stage of an error is read off the message prefix each pipeline step adds"],
+    }
+    rc2 = simple.run_simple(pid, tier, plan2, None)
+    return max(rc, rc2)
 
 
 def c19(pid, tier, replay):
